@@ -1039,3 +1039,15 @@ THEOREMS = THEOREMS + [P + t for t in [
     "C04_nested2b", "C04_nested_accepts_iff2b", "encodeMessage_nested2b_cases", "DescribedP2b.okW", "PDesc.ofMinMaxMidBytes_okWM",
     "PDesc.ofMinMaxMidBytes_fill_isSome", "DDesc.structM_okW", "MDescs.rejWM", "MDescs.fill_someM", "DComp.structOfM_ok",
     "encodeMessage_structW_cases", "PDesc.OkW.toM", "MMShape.leaf_okMid", "MMShape.leaf_okFull", "wMs_described"]]
+
+
+# --- W31 (terminated MIN-MAX-LENGTH leaves over the string base types; Props/C04Nested2c.lean)
+LEAN_TARGETS = LEAN_TARGETS + ["OdxVerif.Props.C04Nested2c"]
+THEOREMS = THEOREMS + [P + t for t in [
+    "C04_nested2c", "C04_nested_accepts_iff2c", "encodeMessage_nested2c_cases", "DescribedP2c.okW", "PDesc.ofMinMaxMidStr_okWM",
+    "PDesc.ofMinMaxMidStr_fill_isSome", "PDesc.IsMidLeaf.okWM", "MMStrShape.leaf_okMid", "MMStrShape.leaf_okFull",
+    "MMStrShape.raw_even", "Text.utf16_encode_even", "x4Ms_described", "C04_minmax_unicode2_odd_max_counterexample",
+    # DYNAMIC-ENDMARKER-FIELD, positive direction (Proofs/CompReject4EndMarker.lean)
+    "C04_nested2c_endmarker", "C04_nested_accepts_iff2c_endmarker", "encodeMessage_describedM_cases", "DescribedM.okWM",
+    "DDesc.endMarkerEop_okW", "DDesc.endMarkerMid_okWM", "PDesc.ofValue_okWM", "EmLayout.missD_of_constFirst",
+    "EmLayout.miss_of_firstConst", "DDesc.fillItems_mem", "x4EmMs_described", "x4L_missD"]]
